@@ -326,6 +326,13 @@ def c15(tier, seed):
     c = Check("C15", tier, seed)
     thorough = tier == T
     c.model_check("Detect.tla", "Detect.cfg", "Detect", workers=8, timeout=1200, must_cover=("Load", "Detect", "Store", "Send"))
+    if thorough:
+        # extra (not needed for the verdict): Apalache discharges an inductive invariant of the detection protocol, i.e. ArmStable
+        # for behaviours of any length (data sizes bounded by the generators)
+        ap = tlc.apalache_inductive(os.path.join(SPEC, "Detect_Ind.tla"), os.path.join(c.work, "apalache"))
+        c.notes["apalache_inductive_invariant_Detect"] = ap
+        if "error" in ap.values():
+            raise ToolError(f"Apalache refutes the inductive invariant of Detect_Ind.tla: {ap}")
     evs = c.drive("default", "api", steps=60 if thorough else 20, walks=3 if thorough else 1)
     evs += renumber(c.drive("aes-detect-off", "api", family="AES", mix_arms=1, steps=80 if thorough else 30, walks=4 if thorough else 1), 10_000_000)
     c.validate(evs, API_MOD, API_CFG, "hist", what="history independence")
